@@ -26,7 +26,7 @@ PROPS = {
             "Xet.Chunker.C04_next_safe",
             "Xet.Chunker.specSplitR_eq",
         ],
-        "suites": ["chunker"],
+        "suites": ["chunker", "session"],
         "level_text": "Theorems for every byte stream, every partition into calls and every Params with minC<maxC: the code-shaped model of "
                       "Chunker::next/next_block/finish equals the reference byte automaton (partition independence), chunks concatenate to the "
                       "input, bounds, content-definedness, no usize underflow. Tied to the Rust Chunker by a differential run (boundaries and the "
@@ -66,6 +66,7 @@ PROPS = {
             "Xet.Merkle.C06_hex_length",
             "Xet.Merkle.C06_hex_injective",
             "Xet.Merkle.C06_hashedwrite_streaming",
+            "Xet.Merkle.C06_hashedwrite_streaming_faulty",
         ],
         "suites": ["hashes", "xorb_validate"],
         "level_text": "Theorems for every chunk list and every choice of hash primitives: producer xorb hash = validators' route, merge "
